@@ -437,7 +437,7 @@ class Evaluator:
             return self._sym("cls", self.self_type)
         if name in self._local_names or name in self._params:
             if at is None:
-                if getattr(self, "_spec_mode", False) and name in self._params and name not in self._local_names:
+                if getattr(self, "_spec_mode", False) and name in self._params:
                     return self._sym(f"param:{name}", self.param_types.get(name))
                 defs = self._all_defs(name)
                 if name in self._params and not defs:
@@ -520,7 +520,34 @@ class Evaluator:
         self._stack.append(key)
         try:
             res = None
-            for dname, how, payload in self.cfg.defs_of_node(node):
+            alld = [d for d in self.cfg.defs_of_node(node) if d[0] == name]
+            if alld and all(d[1] in ("setitem", "augitem", "mutcall") for d in alld):
+                prev = self._name_before(name, node, restrict)
+                cur = prev
+                for dname, how, payload in alld:
+                    if how == "setitem":
+                        target, value, path = payload
+                        v = value
+                        p = list(path)
+                        while p and isinstance(v, (ast.Tuple, ast.List)) and isinstance(p[0], int) \
+                                and p[0] < len(v.elts) and not any(isinstance(e, ast.Starred) for e in v.elts):
+                            v = v.elts[p.pop(0)]
+                        val = self._project(self._t(v, node, restrict), p)
+                        idx = self._index(target.slice, node, restrict)
+                        cur = self.ctx.mk(("store",), (cur, idx, val))
+                    elif how == "augitem":
+                        st = payload
+                        idx = self._index(st.target.slice, node, restrict)
+                        old = self._subscript(prev, idx)
+                        val = self._binop(st.op, old, self._t(st.value, node, restrict))
+                        cur = self.ctx.mk(("store",), (cur, idx, val))
+                    else:
+                        call = payload
+                        args = [self._t(a, node, restrict) for a in call.args]
+                        cur = self.ctx.mk(("mut", call.func.attr), [cur] + args)
+                res = cur
+                alld = []
+            for dname, how, payload in alld:
                 if dname != name:
                     continue
                 if how in ("assign", "iter", "with"):
@@ -599,7 +626,33 @@ class Evaluator:
     def _project_iter(self, res, path):
         for p in path:
             res = self.ctx.mk(("unpack", p), (res,))
+        self._type_elem(res)
         return res
+
+    def _type_elem(self, res):
+        """elements of Mesh.subregions are Regions"""
+        c = self.ctx
+        a = res.single_atom()
+        if a is None or a in c.types:
+            return
+        head, args = c.atoms[a]
+        it = None
+        if head[0] == "iter" and args:
+            it = args[0]
+            want = ".values"
+        elif head == ("unpack", 1) and args:
+            h2 = c.head_of(args[0])
+            if h2 and h2[0] == "iter":
+                it = c.args_of(args[0])[0]
+                want = ".items"
+        if it is None:
+            return
+        h = c.head_of(it)
+        if h and h[0] == "call" and h[1] == want:
+            base = c.args_of(it)[0]
+            hb = c.head_of(base)
+            if hb and hb[0] == "attr" and hb[1] == "_subregions":
+                c.types[a] = "region.Region"
 
     # ------------------------------------------------------------ expressions
     def _t(self, e, at, restrict):
